@@ -25,6 +25,8 @@ fn case(tier: Tier, rng: &mut Rng, rep: &mut Report) {
     p.net.max_v = if tier.thorough { 50 } else { 22 };
     p.net.p_blocks = 0.6;
     p.net.metric = rng.chance(0.5);
+    // stacked vertices (all at one coordinate): distinct vertices at zero great-circle distance from the destination
+    p.net.colocated = !p.net.metric && rng.fork(0xC05C).chance(0.25);
     p.allow_turn_delay = false;
     p.surcharges = rng.chance(0.3);
     let mut world = gen_world(rng, &p);
